@@ -104,7 +104,7 @@ impl<T: Clone + IsOk> Cache<T> for TCacheRef<T> {
                 }
                 Some(None) => {
                     if !waited { trace_event("c_block", key.id); waited = true; }
-                    let (g2, to) = c.cv.wait_timeout(g, Duration::from_millis(3000)).unwrap();
+                    let (g2, to) = c.cv.wait_timeout(g, Duration::from_millis(15000)).unwrap();
                     g = g2;
                     if to.timed_out() && matches!(g.get(&key), Some(None)) {
                         c.deadlocked.store(true, Ordering::SeqCst);
